@@ -6,6 +6,7 @@ import Snmp.Lemmas.UsmLemmas
 import Snmp.Lemmas.RawDigestLemmas
 import Snmp.Lemmas.V3GlueLemmas
 import Snmp.Lemmas.SpecRaw
+import Snmp.Props.C06
 namespace Snmp.Props.C10
 open Snmp Snmp.Usm Snmp.Ber
 
@@ -349,6 +350,62 @@ theorem C10_accepts_datagram (cr : Crypto) (c : Creds)
     simp [hlen]
   rw [hacc]
   simp [hpdu]
+
+
+/-- **An authentic response carrying any PDU the agent writes, from the octets on** (no privacy).
+    The three layers composed: the scoped PDU holds context engine id, context name and a PDU written
+    in any admissible length forms with any bindings (`Glue.WritesPdu`, standard identifier octets for
+    binding list and bindings, not a Report); the wrapper is in any length forms, anything may follow
+    the message; the digest field holds the MAC of the datagram with that field zeroed.  Then
+    `V3MPM.decode` as modelled from the raw datagram returns the scoped PDU whose PDU is exactly the
+    record the agent meant — request-id, error fields and bindings — which is also what
+    `PDU.decode_raw` reads from the same octets (`C06_v3_pdu_readback`). -/
+theorem C10_accepts_written_pdu (cr : Crypto) (c : Creds)
+    (G : V3Glue.MsgForms) (F : V3Glue.ParamForms) (h : V3Glue.HdrC) (p : UsmParams.Params) (boots time : Bytes)
+    (fpl fe fn : LenForm) (e nm : Bytes) (ep : Enc) (cls : String) (pr : Ops.PduResp) (trailing : Bytes) (fuel : Nat)
+    (hw : Glue.WritesPdu ep cls pr) (hstd : Glue.StdPdu ep)
+    (hok : G.ok F h p boots time (V3Glue.tSeq fpl (rawBytes [V3Glue.tStr fe e, V3Glue.tStr fn nm, Glue.rawOf ep])))
+    (hF : F.ok p boots time) (hb : p.boots = intDecode true boots) (ht : p.time = intDecode true time) (hfuel : 5 ≤ fuel)
+    (hfe : fe.ok e.length) (hfn : fn.ok nm.length)
+    (hs : Spec.Small e.length ∧ Spec.Small nm.length ∧ Spec.Small (Glue.rawOf ep).c.length)
+    (hplain : fromBE h.flg / 2 % 2 = 0) (huser : p.user = c.user)
+    (hauthf : (fromBE h.flg % 2 == 1) = c.auth.isSome) (hprivf : (fromBE h.flg / 2 % 2 == 1) = c.priv.isSome)
+    (hagent : ∀ pw, c.auth = some pw → p.auth.length = 12 ∧
+      p.auth = cr.mac (cr.loc pw p.engineId)
+        (V3Glue.v3wire G F h { p with auth := RawDigest.zeros12 } boots time
+          (V3Glue.tSeq fpl (rawBytes [V3Glue.tStr fe e, V3Glue.tStr fn nm, Glue.rawOf ep])) trailing))
+    (hnotreport : usmErrorPdu (Glue.rawOf ep).t = false) :
+    V3Glue.incoming cr c (V3Glue.v3wire G F h p boots time
+        (V3Glue.tSeq fpl (rawBytes [V3Glue.tStr fe e, V3Glue.tStr fn nm, Glue.rawOf ep])) trailing) fuel
+      = .ok ⟨e, nm, ⟨(Glue.rawOf ep).t, pr.requestId, pr.errorStatus, pr.errorIndex, pr.varbinds⟩⟩ := by
+  obtain ⟨⟨hwf, _⟩, hscoped⟩ := C06.C06_v3_pdu_readback ep cls pr hw hstd e nm hs
+  have hkind : (lookup (Glue.rawOf ep).t).kind = "pdu" := by
+    obtain ⟨f, t, fl, tl, erid, ees, eei, items, rfl, _, _, hk, _⟩ := hw
+    exact hk
+  have hrawok : (Glue.rawOf ep).ok := by
+    obtain ⟨f, t, fl, tl, erid, ees, eei, items, rfl, _⟩ := hw
+    simp only [Enc.WF] at hwf
+    exact ⟨hwf.1, hwf.2.1⟩
+  have hoks : ∀ y ∈ [V3Glue.tStr fe e, V3Glue.tStr fn nm, Glue.rawOf ep], y.ok := by
+    intro y hy
+    simp only [List.mem_cons, List.not_mem_nil, or_false] at hy
+    rcases hy with rfl | rfl | rfl
+    · exact V3Glue.ok_of_form _ 4 _ hfe (by simp)
+    · exact V3Glue.ok_of_form _ 4 _ hfn (by simp)
+    · exact hrawok
+  have hpay := C10_payload_plain G F h p boots time fpl (V3Glue.tStr fe e) (V3Glue.tStr fn nm) (Glue.rawOf ep) trailing fuel
+    (fromBE h.flg) hplain hoks (by omega)
+  simp only [V3Glue.tStr] at hpay
+  refine C10_accepts_datagram cr c G F h p boots time _ trailing fuel 48 _ _ hok hF hb ht hfuel hpay huser hauthf hprivf hagent ?_ ?_ hkind
+  · -- the payload step: plain scoped PDU, read by the strict reader
+    unfold extractScoped
+    have hpf : privFlag ⟨intDecode true h.mid, intDecode true h.mms, fromBE h.flg, intDecode true h.mdl,
+        p.engineId, p.boots, p.time, p.user, p.auth, p.priv, 48,
+        Ber.tlv 4 e ++ Ber.tlv 4 nm ++ Ber.tlv (Glue.rawOf ep).t (Glue.rawOf ep).c⟩ = false := by
+      simp [privFlag, hplain]
+    simp only [hpf, hscoped]
+    simp
+  · simp [hasUsmError, hnotreport]
 
 /-- non-vacuity: a noAuthNoPriv response with minimal length octets meets the well-formedness
     hypotheses of `C10_fields_from_wire` / `C10_accepts_datagram`, and its payload step is the plain one -/
